@@ -619,7 +619,7 @@ impl Scenario for Market {
                     add(m1, o1, 2 * PCOLL);
                     l = self.new_ledger(&[(cast.a.0, req(0)), (m1, 2 * PCOLL)]);
                 }
-                "active-1" | "active-2" | "published-1" | "published-2" => {
+                "active-1" | "active-2" | "published-1" | "published-2" | "ending-1" => {
                     let ea = 2 * req(0) + 3;
                     add(cast.a.0, cast.a.0, ea);
                     add(cast.b.0, cast.b.0, ea);
@@ -645,6 +645,13 @@ impl Scenario for Market {
                             dd.activated_at = Some(vm.epoch());
                             dd.in_sector_map = true;
                         }
+                    }
+                    if bn == "ending-1" {
+                        // the deal has run almost to its end (real cron at every scheduled epoch)
+                        let end = l.deals.values().next().unwrap().end;
+                        let invs = tick_to(&vm, end - 2);
+                        assert!(invs.iter().all(|i| i.flat().iter().all(|x| x.ok())), "SETUP-FAILED ticks");
+                        self.sync_after_ticks(&vm, &mut l, end - 3).unwrap_or_else(|e| panic!("SETUP-FAILED base {bn}: {e}"));
                     }
                 }
                 other => panic!("unknown base {other}"),
